@@ -127,6 +127,9 @@ func (g *ExprGen) Pred(d int) Expr {
 	r := g.R
 	g.inPred++
 	defer func() { g.inPred-- }()
+	if r.Chance(1, 7) {
+		return g.nodeDependentNumber()
+	}
 	switch c := r.Intn(40); {
 	case c < 9:
 		return NumLit{Text: Pick(r, []string{"1", "1", "1", "2", "2", "3"})}
@@ -155,6 +158,23 @@ func (g *ExprGen) Pred(d int) Expr {
 			return g.Bool(d)
 		}
 		return Bin{Op: "eq", L: Ctx{}, R: Lit{S: Pick(r, g.Cfg.Texts)}}
+	case c < 36 && false:
+		// a Number-typed predicate whose value depends on the context node: it is compared with
+		// the position of EACH node separately and may select several nodes
+		switch r.Intn(6) {
+		case 0:
+			return Call{Base: Ctx{}, Name: "position"}
+		case 1:
+			return Call{Base: Ctx{}, Name: "number", Args: []Expr{Ctx{}}}
+		case 2:
+			return Call{Base: Ctx{}, Name: "number", Args: []Expr{Step{Base: Ctx{}, Axis: "attribute", Test: Test{Kind: "name", A: Pick(r, g.Cfg.Attrs)}}}}
+		case 3:
+			return Bin{Op: "add", L: Call{Base: Ctx{}, Name: "count", Args: []Expr{Step{Base: Ctx{}, Axis: "preceding-sibling", Test: Test{Kind: Pick(r, []string{"any", "node"})}}}}, R: NumLit{Text: "1"}}
+		case 4:
+			return Bin{Op: "sub", L: Bin{Op: "add", L: Call{Base: Ctx{}, Name: "last"}, R: NumLit{Text: "1"}}, R: Call{Base: Ctx{}, Name: "position"}}
+		default:
+			return Call{Base: Ctx{}, Name: "string-length", Args: []Expr{Ctx{}}}
+		}
 	case c < 37:
 		// the string-value of the witness node, so that the comparison has a chance to hold
 		if g.D != nil && g.Cur >= 0 {
@@ -538,4 +558,23 @@ func (g *ExprGen) Any(d int) Expr {
 		return g.Str(d)
 	}
 	return g.Bool(d)
+}
+
+// a Number-typed predicate whose value depends on the context node: it is compared with the
+// position of EACH node separately and may select several nodes
+func (g *ExprGen) nodeDependentNumber() Expr {
+	r := g.R
+	switch r.Intn(6) {
+	case 0:
+		return Call{Base: Ctx{}, Name: "position"}
+	case 1:
+		return Call{Base: Ctx{}, Name: "number", Args: []Expr{Ctx{}}}
+	case 2:
+		return Call{Base: Ctx{}, Name: "number", Args: []Expr{Step{Base: Ctx{}, Axis: "attribute", Test: Test{Kind: "name", A: Pick(r, g.Cfg.Attrs)}}}}
+	case 3:
+		return Bin{Op: "add", L: Call{Base: Ctx{}, Name: "count", Args: []Expr{Step{Base: Ctx{}, Axis: "preceding-sibling", Test: Test{Kind: Pick(r, []string{"any", "node"})}}}}, R: NumLit{Text: "1"}}
+	case 4:
+		return Bin{Op: "sub", L: Bin{Op: "add", L: Call{Base: Ctx{}, Name: "last"}, R: NumLit{Text: "1"}}, R: Call{Base: Ctx{}, Name: "position"}}
+	}
+	return Call{Base: Ctx{}, Name: "string-length", Args: []Expr{Ctx{}}}
 }
